@@ -754,5 +754,6 @@ def gen(seed, tier):
 
 
 def key(line):
-    """histogram key: family + the sorted set of operation names is too fine; use family"""
-    return line.split(" ", 1)[0]
+    """histogram / report key: family, with the histories using join(k,v) apart"""
+    fam = line.split(" ", 1)[0]
+    return fam + ("-joinkv" if "joinkv," in line else "")
